@@ -451,6 +451,59 @@ func init() {
 		Rule: "short histories (transactions and write batches, values on both sides of the value threshold, user meta, TTL, discard flag, deletes; plain and with 16/24/32-byte encryption keys) produce a WAL and value-log files; the directory is imaged before Close and (a) every .mem and .vlog file is iterated with the production logFile.iterate: every delivered record must equal the write of the model at that key+version (value bytes, directly or through its value pointer into the value-log image, user meta, expiry, delete/discard bits), transactions are delivered complete and in commit order; (b) one byte is flipped at EVERY position of the last 160 bytes of every log: no record that differs from a written one may be delivered and the delivered records must be a prefix of the intact delivery. evaluations = histories; non-trivial = history with >=2 verified records",
 		Real: []string{"memtable.go logFile (encodeEntry/iterate/decrypt), value.go write path, key registry (real code)"}, Stubs: stubsCommon,
 	})
+	// C35 directory locks
+	register(&Scenario{Prop: "C35", Family: "seq", Level: "exploration", Gen: genLockCase,
+		Run:  func(t *testing.T, c *Case, keep bool) Outcome { return ExecuteLocks(t, c, keep) },
+		Rule: "sequences of 2-14 open-read-write / open-read-only / Close calls issued by four handles (two in this process, two in a helper child process driven over a pipe) on three directory layouts (Dir==ValueDir=A; Dir C with ValueDir B) of databases created beforehand; a lock-table model decides for every Open whether it must succeed (no conflicting holder: a read-write holder excludes everybody, read-only holders coexist) and every Close must release. No schedule is involved: the quantifier is over call orderings. non-trivial = sequence in which >=2 handles were open at once or an Open was refused",
+		Real: []string{"dir_unix.go flock-based directory lock, Open/Close (real code) in two real processes"}, Stubs: []string{"none (no simulated scheduler: real processes in a generated, replayable order)"},
+	})
+	// C25 Stream snapshot
+	p25 := profT("K-C25")
+	p25.WStream = 10
+	p25.MaxOps = 20
+	p25.MaxKeys = 10
+	p25.MinClients, p25.MaxClients = 2, 4
+	p25.WIter = 0
+	p25.TTL = true
+	p25.Groups = [][]string{nil, {"client", "stream", "txn", "flusher"}}
+	register(&Scenario{Prop: "C25", Family: "K", Level: "exploration", Profile: p25, NonTrivialProbe: "stream_with_concurrent_commits",
+		Gen: func(t *rapid.T) *Case {
+			c := GenCase(t, p25)
+			// several L0 tables so that db.Ranges splits the key space into several ranges
+			c.Cfg.MemTableSize = int64(rapid.SampledFrom([]int{2 << 10, 3 << 10, 4 << 10}).Draw(t, "memtable25"))
+			c.Cfg.Prefill = rapid.SampledFrom([]int{150, 300, 500}).Draw(t, "prefill25")
+			c.Cfg.PrefillAllKeys = true
+			if c.Cfg.ValueThreshold > c.Cfg.MemTableSize*15/100 {
+				c.Cfg.ValueThreshold = c.Cfg.MemTableSize * 15 / 100
+			}
+			return c
+		},
+		Rule: "the first client runs Stream.Orchestrate (NumGo 1-4, no prefix / a one-byte Prefix / a ChooseKey predicate) over a database whose data is spread over several L0 tables (so that the key space is split into several ranges), while 1-3 other clients commit multi-key transactions; producer goroutines are scheduled actors with points before each producer creates its transaction and at each range hand-out; Send contains a schedule point; oracle: Send calls never overlap, no (key,version) is emitted twice, and there is ONE snapshot timestamp between the call and the return of Orchestrate for which the emitted multiset equals the model's ToList of exactly the chosen keys. non-trivial = a verified Stream run during which at least one commit timestamp was allocated",
+	})
+	// C24 backup / load
+	p24 := profT("K-C24")
+	p24.WBackup = 10
+	p24.MaxOps = 20
+	p24.MaxKeys = 8
+	p24.MinClients, p24.MaxClients = 2, 4
+	p24.WIter = 0
+	p24.Groups = [][]string{nil, {"client", "stream", "txn", "flusher"}}
+	register(&Scenario{Prop: "C24", Family: "K", Level: "exploration", Profile: p24, NonTrivialProbe: "restores_verified",
+		Gen: func(t *rapid.T) *Case {
+			c := GenCase(t, p24)
+			c.Cfg.MemTableSize = int64(rapid.SampledFrom([]int{2 << 10, 3 << 10, 4 << 10}).Draw(t, "memtable24"))
+			c.Cfg.Prefill = rapid.SampledFrom([]int{150, 300}).Draw(t, "prefill24")
+			c.Cfg.PrefillAllKeys = true
+			if c.Cfg.ValueThreshold > c.Cfg.MemTableSize*15/100 {
+				c.Cfg.ValueThreshold = c.Cfg.MemTableSize * 15 / 100
+			}
+			return c
+		},
+		Run: func(t *testing.T, c *Case, keep bool) Outcome {
+			return executeWith(t, c, p24, keep, func(r *Run) { r.extra = restoreCheck }, nil)
+		},
+		Rule: "the first client takes a full Backup and then incremental Backups, each with the version the previous one returned, while 1-3 other clients commit between AND during the backups (the backup's producer goroutines are scheduled actors); at the end the whole chain is Loaded into a fresh database, which must equal the source (value, user meta, expiry, version of every key) as of some single timestamp between the start and the end of the last backup. non-trivial = run whose chain was restored and verified",
+	})
 	// C04 own writes
 	p4 := profT("T-C04")
 	p4.WIter = 5
